@@ -115,6 +115,10 @@ func (self *Node) replace(o Node, n Node) error {
 	l0 := int(uintptr(o.v) - uintptr(self.v))
 	l1 := len(pat)
 	l2 := int(self.offset() - uintptr(o.offset()))
+	if o.v == nil {
+		// not-found position at the very end of self's buffer (see getByPath)
+		l0, l2 = self.l, 0
+	}
 
 	// copy three slices into new buffer
 	buf := make([]byte, l0+l1+l2)
